@@ -269,6 +269,7 @@ pub fn c08(ctx: &mut Ctx, w: &Work) {
         shape_leaf(ops, obs)?;
         counted(ops, obs)?;
         join_check(ops, obs)?;
+        force_check(ops, obs)?;
         Ok(())
     };
     ctx.check("history-random/ght", w.random_cases * 4, prop::collection::vec(op, 1..12), body);
@@ -289,6 +290,64 @@ pub fn c08(ctx: &mut Ctx, w: &Work) {
         }
     }
     ctx.check_all("pairs-small/ght", cases, body);
+}
+
+// ------------------------------------------------------------------ COLT force
+
+/// forcing a leaf (COLT) re-homes every row, with multiplicity, one level down
+fn force_check(ops: &Vec<GOp>, _obs: &mut Obs) -> Result<(), Fail> {
+    use lattices::ght::colt::ColtForestNode;
+    type Leaf = GhtType!(() => u8, u8, u8: VariadicCountedHashSetStd);
+    let label = "ColtForestNode::force";
+    let mut rows: Vec<R3> = vec![];
+    for op in ops {
+        match op {
+            GOp::Insert(r) | GOp::Contains(r) | GOp::FindLeaf(r) => rows.push(*r),
+            GOp::Merge(rs) | GOp::Compare(rs) => rows.extend(rs.iter().copied()),
+            _ => {}
+        }
+    }
+    let mut want: BTreeMap<R3, usize> = BTreeMap::new();
+    for r in &rows {
+        *want.entry(*r).or_default() += 1;
+    }
+    let collect = |it: Vec<R3>| {
+        let mut m: BTreeMap<R3, usize> = BTreeMap::new();
+        for r in it {
+            *m.entry(r).or_default() += 1;
+        }
+        m
+    };
+    let leaf = Leaf::new_from(rows.iter().map(|r| v3(*r)));
+    let forced = guard("force", label, || leaf.force())?;
+    let Some(forced) = forced else {
+        return Err(Fail::new("colt-force:none-for-leaf", "force() of a leaf returned None"));
+    };
+    if forced.height() != 1 {
+        return Err(Fail::new("colt-force:height", format!("forced height {}", forced.height())));
+    }
+    let got = collect(forced.recursive_iter().map(r3).collect());
+    if got != want {
+        return Err(Fail::new("colt-force:rows", format!("forced trie holds {got:?}, leaf held {want:?}")));
+    }
+    for r in want.keys() {
+        if !forced.contains(v3(*r).as_ref_var()) {
+            return Err(Fail::new("colt-force:contains", format!("row {r:?} not found after force")));
+        }
+        let under_head: BTreeMap<R3, usize> = collect(forced.prefix_iter(var_expr!(sr(r[0]))).map(r3).collect());
+        let want_head: BTreeMap<R3, usize> = want.iter().filter(|(x, _)| x[0] == r[0]).map(|(x, n)| (*x, *n)).collect();
+        if under_head != want_head {
+            return Err(Fail::new("colt-force:head-bucket", format!("head {} holds {under_head:?}, expected {want_head:?}", r[0])));
+        }
+    }
+    // force_drain empties the source
+    let mut leaf2 = Leaf::new_from(rows.iter().map(|r| v3(*r)));
+    let forced2 = guard("force_drain", label, || leaf2.force_drain())?;
+    let got2 = forced2.map(|f| collect(f.recursive_iter().map(r3).collect()));
+    if got2 != Some(want.clone()) || leaf2.recursive_iter().count() != 0 {
+        return Err(Fail::new("colt-force_drain", format!("drained into {got2:?} leaving {} rows; expected {want:?}", leaf2.recursive_iter().count())));
+    }
+    Ok(())
 }
 
 // ------------------------------------------------------------------ joins of two tries
